@@ -8,6 +8,7 @@ import (
 	"time"
 
 	"hop.computer/hop/common"
+	"hop.computer/hop/pkg/vt"
 	"hop.computer/hop/transport"
 
 	"github.com/sirupsen/logrus"
@@ -289,6 +290,9 @@ func (u *Unreliable) Close() error {
 	}
 	u.lifecycleMu.Unlock()
 
+	if vt.On {
+		vt.Yield("unrel.close.state")
+	}
 	if oldState == created {
 		close(u.stopInitiate)
 	}
